@@ -110,6 +110,10 @@ func r062(c *Ctx) {
 			if !ok {
 				continue
 			}
+			// (the copy is NewService's result, or an object allocated right here when the constructor's body was shared)
+			if a, isAlloc := base.(*ssa.Alloc); isAlloc && a.Heap && fresh == nil {
+				fresh = a
+			}
 			c.ob(rule, "CopyWithOptions/writes-only-the-copy ("+f.Name()+")", st.Pos(), fresh != nil && base == fresh, true, "a redeploy must build on a copy; the installed service (receiver) may not be written")
 		}
 	}
